@@ -81,6 +81,9 @@ def line_results(net, V, dc=False):
         if (np.isnan(vf) and not of) or (np.isnan(vt) and not ot):
             out[idx] = None
             continue
+        if of and ot:
+            out[idx] = None      # de-energised on both sides: the documented model defines no currents
+            continue
         Y = line_Y(net, idx)
         sf, st = two_port_flows(Y, 0 if of else vf, 0 if ot else vt, of, ot)
         sf, st = sf * net.sn_mva, st * net.sn_mva
@@ -97,6 +100,9 @@ def line_results(net, V, dc=False):
 # ----------------------------------------------------------------------------------------------
 # two-winding transformer
 # ----------------------------------------------------------------------------------------------
+IDEAL_PERCENT_FORMULA = "doc"      # "doc": 2*asin(st/200)*d (doc/elements/trafo.rst) ; "chord": 2*asin(d*st/200)
+
+
 def _tap(changer, d, step_percent, step_degree):
     """-> (ratio factor on the tapped side's rated voltage, angle shift in degree to add on the tapped side)"""
     sp = 0. if (step_percent is None or np.isnan(step_percent)) else float(step_percent)
@@ -109,6 +115,8 @@ def _tap(changer, d, step_percent, step_degree):
     if changer == "Ideal":
         if sd != 0.:
             return 1., d * sd
+        if IDEAL_PERCENT_FORMULA == "chord":
+            return 1., math.degrees(2. * math.asin(0.5 * d * sp / 100.))
         return 1., math.degrees(2. * math.asin(0.5 * sp / 100.)) * d
     raise NotImplementedError("tap changer type %r" % (changer,))
 
@@ -157,6 +165,9 @@ def trafo_results(net, V, opts):
         oh, ol = hb in op, lb in op
         vh, vl = V[hb], V[lb]
         if (np.isnan(vh) and not oh) or (np.isnan(vl) and not ol):
+            out[idx] = None
+            continue
+        if oh and ol:
             out[idx] = None
             continue
         d = (T.tap_pos - T.tap_neutral) if not (np.isnan(T.tap_pos) or np.isnan(T.tap_neutral)) else 0.
@@ -251,6 +262,9 @@ def trafo3w_results(net, V, opts):
                                     shift[k] + extra[k], model)
             Y4[np.ix_([a, b], [a, b])] += Yk
         act = [i for i, b in enumerate(buses) if b not in op]
+        if not act:
+            out[idx] = None
+            continue
         # open sides: terminal current 0 -> eliminate together with the star node
         elim = [3] + [i for i in range(3) if i not in act]
         keep = act
